@@ -114,6 +114,7 @@ def main():
     strings = [node.path, "/dev/", node.path + "-absent", "/dev/shm", "iscsi://h/t/0", "iscsi://10.0.0.1:3260/iqn.2000-01.verif:x/7",
                "iscsi://user%secret@h/t/0", "iscsi://chapuser@192.0.2.1:3260/iqn.2003-01.org.example:tgt/2", "iscsi://[fe80::1]:3260/iqn.x:y/15",
                "iscsi://H.Example.COM/IQN.Mixed:Case/0", "iscsi://h/t@x/0",
+               node.path + "{a,b}", "/dev/{0}", "/dev/%s", "/dev/shm/sd{", "iscsi://h/t{pool}/0", "iscsi://h/%(t)s/0", "{dev}", "%d",
                "iscsi:/", "iscsi:/h/t/0", "", "sg0", "/tmp/x", "ISCSI://h/t/0", "/DEV/sg0", "dev/sg0", " /dev/sg0", "/de", "iscsi",
                "/dev", "file:///dev/sg0", "//dev/sg0"]
     calls = []
